@@ -148,6 +148,71 @@ def b1_model(pid, tier, seed, model, wd):
 
 
 # --------------------------------------------------------------------------- B2: random real-valued histories
+def special_history(rng, hid, transport, kind):
+    """histories in which a count crosses a threshold no small model reaches:
+    many   - about a hundred transactions outstanding at once, each with its own schedule, polled to their ends;
+    forged - one authenticated transaction receives a dozen responses that do not authenticate, then its schedule
+             runs on (or the right response arrives);
+    attrs  - authenticated requests that carry twenty attributes in front of the integrity attribute"""
+    steps = []
+    keys = ["k1", "k2"]
+    addrs = ["a1", "a2", "a3", "a4", "a5", "a6"]
+    ntids = 8
+    def cfg():
+        return rng.choice([1, 50, 499, 500, rng.randint(1, 3000)]), rng.choice([0, 1, 2, 3, 7]), rng.choice([0, 1, 800, rng.randint(0, 9000)])
+    def wake():
+        steps.append({"a": "tick_wake", "delta": rng.choice([0, 0, 0, -1, 1]), "d": rng.randint(1, 2000)})
+        steps.append({"a": "poll"})
+    if kind == "many":
+        ntids = 110
+        n = rng.randint(70, 105)
+        for t in range(n):
+            steps.append({"a": "send", "cls": "request", "tid": t, "to": rng.choice(addrs), "sealed": rng.choice([False, "sha1"]), "pay": rng.choice(["p1", "p2", "p3"])})
+            if rng.random() < 0.7:
+                rto, k, last = cfg()
+                steps.append({"a": "configure", "tid": t, "rto": rto, "n": k, "last": last})
+            if rng.random() < 0.1:
+                steps.append({"a": "tick", "d": rng.randint(1, 40)})
+        steps.append({"a": "set_remote", "key": "k1"})
+        for _ in range(450):
+            r = rng.random()
+            if r < 0.75:
+                wake()
+            elif r < 0.9:
+                steps.append({"a": "recv", "cls": "response", "tid": rng.randrange(n), "from": rng.choice(addrs), "integ": rng.choice(["none", "k1", "k2"]), "alg": rng.choice(ALGS)})
+            else:
+                steps.append({"a": rng.choice(["cancel", "cancel_rt"]), "tid": rng.randrange(n)})
+    elif kind == "forged":
+        for rnd in range(3):
+            t = rnd
+            if rnd != 1:
+                steps.append({"a": "set_remote", "key": "k1"})
+            steps.append({"a": "send", "cls": "request", "tid": t, "to": "a1", "sealed": rng.choice(["sha1", "sha256", "both"]), "pay": "p1"})
+            if rng.random() < 0.5:
+                steps.append({"a": "configure", "tid": t, "rto": rng.choice([100, 500]), "n": rng.choice([3, 7]), "last": rng.choice([400, 8000])})
+            for i in range(rng.randint(9, 20)):
+                steps.append({"a": "recv", "cls": "response", "tid": t, "from": rng.choice(["a1", "a2"]), "integ": rng.choice(["none", "k2", "corrupt"]), "alg": rng.choice(ALGS)})
+                if rng.random() < 0.25:
+                    wake()
+            if rnd == 1:
+                steps.append({"a": "set_remote", "key": "k1"})
+            for i in range(rng.randint(2, 12)):
+                wake()
+            steps.append({"a": "recv", "cls": "response", "tid": t, "from": "a1", "integ": "k1", "alg": rng.choice(ALGS)})
+            for i in range(12):
+                wake()
+    else:
+        steps.append({"a": "set_remote", "key": "k1"})
+        for t in range(6):
+            steps.append({"a": "send", "cls": "request", "tid": t, "to": rng.choice(addrs), "sealed": rng.choice(["sha1", "sha256", "both"]), "pay": "pmany%d" % rng.randint(15, 24)})
+            steps.append({"a": "recv", "cls": "response", "tid": t, "from": rng.choice(addrs), "integ": rng.choice(["none", "k2", "corrupt"]), "alg": rng.choice(ALGS)})
+            wake()
+            steps.append({"a": "recv", "cls": "response", "tid": t, "from": rng.choice(addrs), "integ": rng.choice(["none", "k1"]), "alg": rng.choice(ALGS)})
+            wake()
+    return {"id": hid, "seed": rng.randrange(1 << 30), "transport": transport, "scale": 1, "probe": True, "us": False, "many": kind == "many",
+            "ntids": ntids, "steps": steps, "req_alg": rng.choice(ALGS), "resp_alg": rng.choice(ALGS), "cred_variant": rng.randrange(5)}
+
+
 def rand_history(rng, hid, transport, nsteps, ntids=8, maxrto=60000, us=False, crowd=False):
     """us: instants in microseconds (ticks with sub-millisecond parts; configuration values stay whole ms, values are
     kept small enough for TLC's 32-bit integers); crowd: several hundred distinct peers get validated"""
@@ -332,12 +397,14 @@ B2_OWNER = {"poll": ["C06", "C05"], "recv_resp": ["C07", "C05", "C15"], "recv_ot
 
 
 def validate_trace(lines, transport, wd, tag, us=False):
+    # us: False/"" (milliseconds), True/"us" (microsecond instants), "many" (ids 0..127)
+    sfx = {"us": "_us", "many": "_many", True: "_us"}.get(us, "")
     """returns None if accepted else 1-based index of the first line that no spec step explains"""
     path = os.path.join(wd, "trace_%s.ndjson" % tag)
     with open(path, "w") as f:
         for ln in lines:
             f.write(json.dumps(ln) + "\n")
-    res = run_tlc("StunAgentTrace.tla", "StunAgentTrace_%s%s.cfg" % (transport, "_us" if us else ""), workers=1, timeout=1800,
+    res = run_tlc("StunAgentTrace.tla", "StunAgentTrace_%s%s.cfg" % (transport, sfx), workers=1, timeout=1800,
                   env_extra={"TRACE": path}, java_opts="-Xss1g -Xmx4g -Dtlc2.tool.queue.IStateQueue=StateDeque")
     out = res["out"]
     os.remove(path)
@@ -363,6 +430,8 @@ def b2(pid, tier, seed, wd, rep):
         rng = random.Random(seed * 1000003 + (1 if transport == "udp" else 2))
         scripts = [rand_history(rng, "%s/h%d" % (transport, i), transport, nsteps, us=(i % 4 == 3), crowd=(i == 1))
                    for i in range(nh if transport == "udp" else nh // 2)]
+        scripts += [special_history(rng, "%s/%s%d" % (transport, kind, j), transport, kind)
+                    for kind in ("many", "forged", "attrs") for j in range(1 if tier == "quick" else 6)]
         out = run_scripts(scripts, wd, "b2" + transport)
         if pid == "C20":
             # the same histories again in other agent instances (another thread, decoy agents, later in the process):
@@ -407,8 +476,10 @@ def b2(pid, tier, seed, wd, rep):
             stats["histories"] += 1
         # validate in batches; on rejection drop that history and go on with the rest
         batch = 400
-        groups = [[h for h in hist_lines if not h[0].get("us")], [h for h in hist_lines if h[0].get("us")]]
-        chunks = [(g[b0:b0 + batch], bool(g and g[0][0].get("us")), "%d_%d" % (gi, b0)) for gi, g in enumerate(groups) for b0 in range(0, len(g), batch)]
+        groups = [[h for h in hist_lines if not h[0].get("us") and not h[0].get("many")], [h for h in hist_lines if h[0].get("us")],
+                  [h for h in hist_lines if h[0].get("many")]]
+        chunks = [(g[b0:b0 + batch], ("us" if g[0][0].get("us") else "many" if g[0][0].get("many") else ""), "%d_%d" % (gi, b0))
+                  for gi, g in enumerate(groups) if g for b0 in range(0, len(g), batch)]
         for pending, us_mode, ctag in chunks:
             for _attempt in range(8):
                 if not pending:
